@@ -1,7 +1,9 @@
 package props
 
 import (
+	"fmt"
 	"math/big"
+	"strings"
 
 	"verifmc/engine"
 	"verifmc/world"
@@ -145,6 +147,85 @@ var c13Seed = []world.Op{
 	opBlock(1),
 }
 
+// newcomerRef remembers the positions opened since the last reward allocation; nothing is payable to them until the
+// next allocation ("rewards that accrued before a position existed are not payable to the new stake").
+type newcomerRef struct {
+	New         map[string]bool
+	ViaUnbonded bool // some newcomer arrived while its validator was outside the active set with module rewards pending
+}
+
+func (r *newcomerRef) Clone() engine.Ref {
+	n := &newcomerRef{New: map[string]bool{}, ViaUnbonded: r.ViaUnbonded}
+	for k, v := range r.New {
+		n.New[k] = v
+	}
+	return n
+}
+
+func (r *newcomerRef) Digest() []byte {
+	return []byte(strings.Join(sortedKeys(r.New), ";") + fmt.Sprint(r.ViaUnbonded))
+}
+
+func c13NewcomerStep(x *engine.Exec) []engine.Failure {
+	if x.Res.Rejected {
+		return nil
+	}
+	ref := x.Next.Ref.(*newcomerRef)
+	prev, next := x.Prev.Snap(), x.Next.Snap()
+	w := x.W
+	switch x.Op.K {
+	case world.KBlock:
+		if x.Res.Err != nil {
+			return []engine.Failure{fail("endblock", "error", "block failed: %v", x.Res.Err)}
+		}
+		if !prev.Fee.IsZero() {
+			// the BeginBlock half allocates what the fee collector held: from here on newcomers earn
+			ref.New = map[string]bool{}
+			ref.ViaUnbonded = false
+		}
+	case world.KDelegate, world.KRedelegate:
+		v := x.Op.V
+		if x.Op.K == world.KRedelegate {
+			v = x.Op.V2
+		}
+		if _, had := prev.FindPos(x.Op.D, v, x.Op.Denom); !had {
+			ref.New[world.Pos{D: x.Op.D, V: v, Denom: x.Op.Denom}.Key()] = true
+			if val, err := w.App.StakingKeeper.GetValidator(x.Prev.Ctx, w.Vals[v]); err == nil && !val.IsBonded() {
+				for _, amt := range modulePending(w, x.Prev.Ctx, v) {
+					if amt.Cmp(ratI(1)) >= 0 {
+						ref.ViaUnbonded = true
+						x.Cnt.Inc("newcomer.arrived_on_non_bonded_validator_with_rewards_pending")
+						break
+					}
+				}
+			}
+		}
+	}
+	var out []engine.Failure
+	for _, p := range next.Pos {
+		if !ref.New[p.Key()] || p.D < 0 || p.D >= len(w.Dels) {
+			continue
+		}
+		r := w.Exec(x.Next.Ctx, world.Op{K: world.KClaim, D: p.D, V: p.V, Denom: p.Denom})
+		x.Cnt.Inc("newcomer.probed")
+		if ref.ViaUnbonded {
+			if val, err := w.App.StakingKeeper.GetValidator(x.Next.Ctx, w.Vals[p.V]); err == nil && val.IsBonded() {
+				x.Cnt.Inc("newcomer.probed_after_validator_rebonded")
+			}
+		}
+		if r.Err != nil {
+			out = append(out, fail("newcomer-claim", "error", "claim of the new position %s fails: %v", p.Key(), r.Err))
+			continue
+		}
+		before := w.App.BankKeeper.GetBalance(x.Next.Ctx, w.Dels[p.D], rewardDenom).Amount
+		after := w.App.BankKeeper.GetBalance(r.Ctx, w.Dels[p.D], rewardDenom).Amount
+		if !after.Equal(before) {
+			out = append(out, fail("not-retroactive", "", "after %s: position %s, opened after the last reward allocation, is paid %s %s", x.Op.String(), p.Key(), after.Sub(before), rewardDenom))
+		}
+	}
+	return out
+}
+
 func init() {
 	register(&Property{
 		ID:    "C13",
@@ -187,10 +268,35 @@ func init() {
 					Required: []string{"reward.allocations", "claim.with_positive_entitlement", "arrive.delegate_new", "arrive.delegate_existing", "arrive.redelegate_new", "arrive.redelegate_existing", "tx.with_rewards_pending_in_distribution", "claim.second_claim_probed"},
 				}
 			}
-			if tier == "thorough" {
-				return []*engine.Scenario{mk("c13-entitlement", []int{4, 0, 3, 2, 0}, 8)}
+			// full pipeline: the validator leaves and re-enters the active set (jailed without a slash) with rewards pending in
+			// x/distribution; stake that arrives in between must not be paid anything of them
+			jcfg := world.DefaultConfig()
+			jcfg.FullPipeline = true
+			jcfg.Assets = []world.AssetCfg{{Denom: "aaa", Weight: "1", Min: "0", Max: "5", TakeRate: "0"}}
+			jailed := &engine.Scenario{
+				Property: "C13", Name: "c13-validator-leaves-active-set", Cfg: jcfg, Stores: world.AllStores,
+				Seeds:      [][]world.Op{{opDel(0, 0, "aaa", "1000000"), opDel(0, 1, "aaa", "1000000"), opBlock(1)}},
+				ClassNames: classNames, Budgets: tierPick(tier, []int{1, 0, 3, 4, 0}, []int{2, 0, 4, 5, 0}), MaxDepth: tierPick(tier, 8, 10),
+				NewRef: func(w *world.World, root *engine.Node) engine.Ref { return &newcomerRef{New: map[string]bool{}} },
+				Ops: func(n *engine.Node) []world.Op {
+					ops := []world.Op{
+						{K: world.KDelegate, D: 1, V: 0, Denom: "aaa", Amt: "3000000", Class: ClsUser},
+						{K: world.KRedelegate, D: 0, V: 1, V2: 0, Denom: "aaa", Amt: "500000", Class: ClsUser},
+						{K: world.KJail, V: 0, Class: ClsEnv}, {K: world.KUnjail, V: 0, Class: ClsEnv},
+						{K: world.KBlock, Dt: int64(U), Class: ClsBlock},
+					}
+					if atBlockStart(n) {
+						ops = append(ops, world.Op{K: world.KReward, Denom: rewardDenom, Amt: "10000000", Class: ClsEnv})
+					}
+					return ops
+				},
+				Step: c13NewcomerStep, SeedStep: true,
+				Required: []string{"newcomer.probed", "newcomer.arrived_on_non_bonded_validator_with_rewards_pending", "newcomer.probed_after_validator_rebonded"},
 			}
-			return []*engine.Scenario{mk("c13-entitlement", []int{4, 0, 2, 2, 0}, 6)}
+			if tier == "thorough" {
+				return []*engine.Scenario{mk("c13-entitlement", []int{4, 0, 3, 2, 0}, 8), jailed}
+			}
+			return []*engine.Scenario{mk("c13-entitlement", []int{4, 0, 2, 2, 0}, 6), jailed}
 		},
 		Assumptions: []string{
 			"no value-changing events (take rates 0, no slashes): those are C12's; rewards in the bond denom; weights 1 (aaa) and 2 (bbb) on a shared validator; stakes of 2.5e5..1e6 base units so the 1e-18 index resolution is negligible",
